@@ -52,8 +52,8 @@ TABLE = {
             "Machine-checked proof, for all integers, that the generated (re-translated every run) size functions count the documented nested-loop orderings and the index functions return positions in them (incl. symmetric folding, methods = free functions, int64 exactness up to 10^6 and a proved overflow witness beyond). Complete for the property; the translator is validated by differential execution on every run.",
             NOTE_COMMON + "numba types Python ints as int64 (modelled by the generated *_w twins); brute-force sweeps only support the failing-input search. Known finding F12 (int64 wrap beyond 1.6e6).", "DESIGN.md §7 C11"),
     "C12": ("Lean theorems on ladder coefficients/commutators (exact arithmetic) + exponential-series sweep against rotated evaluation",
-            "Proved over exact reals for every spin, ell, m and every weight family (Model/Operators, validated bit for bit against Modes operators and the array-level functions on ~22000 cases per run): su(2) commutators and Casimir for L and R, [ethbar,eth] = 2s incl. ell=|s|, eth/ethbar coefficients sqrt((l-s)(l+s+1)) / -sqrt((l+s)(l-s+1)), annihilation below the new |s|, NP = sqrt2 GHP, array-level = Modes-level for every ell_min, ethbar_inverse two-sided inverse on its domain. Sweep: exponential series of the generators vs evaluation at exp(tg)Q / Q exp(tg)." + PARTIAL,
-            NOTE_COMMON + "generator semantics needs the representation property (not proved).", "DESIGN.md §7 C12"),
+            "Proved over exact reals for every spin, ell, m and every weight family (Model/Operators, validated bit for bit against Modes operators and the array-level functions on ~22000 cases per run): su(2) commutators and Casimir for L and R, [ethbar,eth] = 2s incl. ell=|s|, eth/ethbar coefficients sqrt((l-s)(l+s+1)) / -sqrt((l+s)(l-s+1)), annihilation below the new |s|, NP = sqrt2 GHP, array-level = Modes-level for every ell_min, ethbar_inverse two-sided inverse on its domain. And the main clause, for every ell, spin, unit axis g, rotor Q and angle t (Generators, on top of the documented D and its group law): the derivative of the rotated weights at the identity is 2i L_g f with the model's Lz, (L+ + L-)/2, (L+ - L-)/2i; rot(exp(t g)) = exp(2 i t L_g) block by block; sum_k (2it)^k/k! (L_g^k f)(Q) = f(exp(t g) Q) (left_series_eval) and the same with R_z = Rz, R_x = (ethbar-eth)/2, R_y = i(eth+ethbar)/2 for f(Q exp(t g)) (right_series_eval). Sweep: the same series summed numerically on the real code." + PARTIAL_ROUNDING,
+            NOTE_COMMON + "convergence/rounding of the finite numerical series is swept, not proved.", "DESIGN.md §7 C12"),
     "C13": ("Lean proof of conjugation symmetry (Routes) + sweep of Modes algebra vs evaluation",
             "Proved (exact arithmetic): the symmetry D_{-m',-m} = (-1)^{m'+m} conj D_{m',m} and sYlm = D column, which give conj(f)(Q) = conj(f(Q)) for the conjugation rule; at FUNCTION level, tied to the model's loops and to the documented sYlm (FuncAlg): (f+-g)(Q) = f(Q)+-g(Q) for any pair of ell_max (out=/aliasing included), scalars scale pointwise, conj-weights evaluate to the complex conjugate, conjugation is an involution, real/imag evaluate to Re/Im f(Q) for spin 0 (weight formula compared with the class bit for bit every run); on the validated Modes model, for all spins/sizes: add/subtract spin rule and ell_max = max, rejections (spin mismatch, non-zero scalar, division by Modes, allow-list), conjugation pairing (ell,m)<->(ell,-m) with sign (-1)^{s+m}, method = ufunc = in-place loop, involution, out= overwrites (also when out aliases an operand). Sweep covers +,-, conjugation by every spelling incl. aliasing out=, real/imag, norm." + PARTIAL,
             NOTE_COMMON + "norm = L2 norm relies on orthonormality (not proved).", "DESIGN.md §7 C13"),
